@@ -37,6 +37,45 @@ def text_of(node: ast.AST, fr: Frame) -> str:
         return "<?>"
 
 
+_LOCALS_CACHE: dict = {}
+
+
+def _locals_of(fn: ast.AST) -> frozenset:
+    """Names bound inside the function other than its parameters (assignment, loop, with, comprehension targets)."""
+    k = id(fn)
+    if k not in _LOCALS_CACHE:
+        params = set()
+        a = fn.args
+        for x in list(a.posonlyargs) + list(a.args) + list(a.kwonlyargs) + [y for y in (a.vararg, a.kwarg) if y is not None]:
+            params.add(x.arg)
+        bound = {n.id for n in ast.walk(fn) if isinstance(n, ast.Name) and isinstance(n.ctx, (ast.Store, ast.Del))}
+        _LOCALS_CACHE[k] = (fn, frozenset(bound - params))   # fn kept alive so that id() stays unique
+    return _LOCALS_CACHE[k][1]
+
+
+def key_text(node: ast.AST, fr: Frame) -> str:
+    """Identity text of a construct for finding keys: like text_of, but the function's own local variable names are
+    replaced by positional placeholders (in order of first occurrence in the construct), so that renaming a local
+    does not turn a listed finding into a new one."""
+    if isinstance(node, (ast.FunctionDef, ast.AsyncFunctionDef)):
+        return text_of(node, fr)
+    try:
+        fn = fr.func.node
+        loc = _locals_of(fn)
+        if not loc:
+            return ast.unparse(node)
+        import copy
+        n2 = copy.deepcopy(node)
+        order: dict = {}
+        names = [x for x in ast.walk(n2) if isinstance(x, ast.Name) and x.id in loc]
+        names.sort(key=lambda x: (getattr(x, "lineno", 0), getattr(x, "col_offset", 0)))
+        for x in names:
+            x.id = order.setdefault(x.id, f"_{len(order) + 1}")
+        return ast.unparse(n2)
+    except Exception:  # pragma: no cover
+        return text_of(node, fr)
+
+
 COERCIONS = {"int", "float", "Decimal", "str", "to_decimal"}
 
 
